@@ -44,6 +44,39 @@ Proof.
   revert Hu Hp. vm_compute. intros Hu. destruct u as [|[|u]]; [discriminate|discriminate|lia].
 Qed.
 
+(* (a') the writer skips the wake-up when the backlog it computed from its EARLIER load of
+   read_cursor is at least capacity/2 ("the reader is busy anyway").  The reader can drain the
+   backlog and go to sleep between that load and the store of write_cursor: the message just
+   published is never announced.  (This is the seeded change C03-5.) *)
+Definition fstep_skipwake (s : fsys) (t : nat) (ch : nat) : option (fsys * label) :=
+  match f_pc (f_thr s t) with
+  | FWWake =>
+    if Nat.leb (f_n s) t then None else
+    let x := f_thr s t in
+    if f_cap s / 2 <=? ridx (f_reg2 x + f_cap s - 2 - f_reg x) (f_cap s)
+    then Some (fset s t {| f_pc := FWSeg; f_k := pred (f_k x); f_reg := f_reg x; f_reg2 := f_reg2 x;
+                           f_pend := [(n_wrote, 0)]; f_g := f_g x |}, LPlain [])
+    else fstep s t ch
+  | _ => fstep s t ch
+  end.
+(* capacity 8, one writer with 5 messages: 4 published while the reader is away, the writer loads
+   read_cursor for the 5th and is pre-empted before its store; the reader reads all 4 and sleeps;
+   the writer stores, skips the wake (backlog 4 >= 4) and finishes *)
+Definition f_skip_sched : list (nat * nat) :=
+  (repeat (1,0) 24 ++ repeat (1,0) 3 ++ repeat (0,0) 20 ++ repeat (1,0) 5)%nat.
+Example chan_futex_skipped_wake_deadlocks :
+  let s := exec fsys fstep_skipwake (finit 2 8 false 5 (fun _ => 5%nat)) f_skip_sched in
+  f_pc (f_thr s 0%nat) = FRBlocked /\ f_done s 1%nat /\
+  f_wcur s <> f_reg (f_thr s 0%nat) /\
+  (forall u, (u < 2)%nat -> f_pending (f_pc (f_thr s u)) = false) /\
+  f_wcur s <> ridx (f_rcur s + 1) (f_cap s) /\
+  (forall t, (t < 2)%nat -> fstep_skipwake s t 0 = None).
+Proof.
+  cbv zeta. repeat split;
+    try (intros [|[|u]] H; [vm_compute; reflexivity|vm_compute; reflexivity|lia]);
+    vm_compute; try reflexivity; discriminate.
+Qed.
+
 (* ------------------------------------------------------------------ *)
 (* (c) ring buffer: the same mistake in read_wait *)
 Definition gstep_reload (s : gsys) (t : nat) (ch : nat) : option (gsys * label) :=
